@@ -47,7 +47,7 @@ def required_cells(tier):
             "repeat-parse", "implicit-option:attached-value", "builtin:gcc", "builtin:clang", "builtin:icx", "builtin:nvcc", "e2e:_OPENMP", "e2e:__CUDA_ARCH__",
             "e2e:__SYCL_DEVICE_ONLY__", "e2e:passes-differ-in-include-files", "unknown-compiler", "e2e:passes-differ-in-include-paths", "format:$value", "format:${value}", "argv0:symlink-to-known-compiler",
             "implicit-option:dollar-name-set-in-environment", "argv:strict-prefix-of-configured-flag", "e2e:launcher-as-argv0", "default:plain-string", "e2e:conditional-free-source-with-pass-dependent-header",
-            "e2e:pass-selecting-flag-given-twice", "e2e:pass-selecting-flag-among-implicit-options"]
+            "e2e:pass-selecting-flag-given-twice", "e2e:pass-selecting-flag-among-implicit-options", "argv:response-file-token"]
 
 
 # ------------------------------------------------------------------ TOML --
@@ -330,7 +330,9 @@ def check_commands(ctx, config, builtin, user, cmds, cells, cls):
             try:
                 obs, ev = observe(config, argv0, argv)
                 acc.hook("parse_args")
-            except Exception as e:
+            except BaseException as e:          # (argparse leaves through SystemExit when it calls parser.error)
+                if isinstance(e, KeyboardInterrupt):
+                    raise
                 obs, ev = None, None
                 problems.append({"kind": "exception", "observed": f"{type(e).__name__}: {e}"})
             exp, status = ccmodel.expected(compilers, argv0, argv)
@@ -559,7 +561,9 @@ E2E_USER = {
             "passes": [{"name": "off-a", "include_files": ["a.h"]}, {"name": "off-b", "include_files": ["b.h"]},
                        {"name": "off-c", "include_files": ["b.h"], "defines": ["TARGET_C"]},
                        {"name": "off-d", "defines": ["WITH_PH"], "include_paths": ["pa"]},
-                       {"name": "off-e", "defines": ["WITH_PH"], "include_paths": ["pb"]}]},
+                       {"name": "off-e", "defines": ["WITH_PH"], "include_paths": ["pb"]},
+                       # a declared pass that happens to be called like the built-in default pass declares nothing about it
+                       {"name": "default", "defines": ["HOST_PASS"]}]},
 }
 # the same compiler with a pass-selecting flag among its IMPLICIT options: it behaves as if appended to the command
 # line, so it replaces what an explicit -foffload= selected
@@ -763,6 +767,11 @@ def run_shard(ctx):
                 cells.add("argv:strict-prefix-of-configured-flag")
                 ABBREV_SEEN[0] = 0
             cmds.append(("nvcc", ["--gpu-arch=sm_80", "--gpu-architectur", "sm_90", "k.cu"]))     # not abbreviations of --gpu-architecture
+            # tokens that mean something to argparse itself but are just unknown arguments of a compile command: a response
+            # file that is not there (CMake/Ninja emit @CMakeFiles/x.dir/includes_CXX.rsp), a lone `@`
+            cmds.append(("g++", ["@CMakeFiles/x.dir/includes_CXX.rsp", "-DX=1", "-I", "inc", "src.cpp"]))
+            cmds.append(("nvcc", ["-DY", "@objects.rsp", "@", "k.cu"]))
+            cells.add("argv:response-file-token")
             check_commands(ctx, config, builtin, user, cmds, cells, "R")
             relations(ctx, config, builtin, user, r2, cells)
             implicit_explicit(ctx, config, builtin, user, r2, work)
